@@ -72,8 +72,8 @@ def run_after_error(P, ctx, job, seq):
                 used = False
             if used:
                 lab = S.fresh("cont")
-                if isinstance(inner, Opaque) and os.environ.get("VERIF_TIER", "quick") != "thorough":
-                    # the replacement expression of `:replace 42` is the literal 42 (quick); thorough: any value
+                if isinstance(inner, Opaque):
+                    # the replacement expression of `:replace 42` is the literal 42
                     St.seeded[lab] = M.v_int(Int(42, 64, True))
                 St.push_value(lab)
             return ok(NONE)
@@ -181,13 +181,16 @@ _SHARED = {}
 
 def make_seqs(tier):
     seq_len = 1 if tier == "quick" else 2
-    return [list(s) for n in range(1, seq_len + 1) for s in itertools.product(COMMANDS, repeat=n)]
+    seqs = [list(s) for n in range(1, seq_len + 1) for s in itertools.product(COMMANDS, repeat=n)]
+    # after :abort nothing of the evaluation is left (C10): longer sequences that start with it add nothing
+    return [s for s in seqs if len(s) == 1 or s[0] != ":abort"]
 
 
 def make_jobs(P, tier):
     jobs = [(label, job) for label, job in S.jobs(P, max_args=1)]
-    if tier == "quick":
-        # the command-action kernel does not depend on which built-in failed: one representative per call form
+    if tier in ("quick", "thorough"):
+        # the command-action kernel does not depend on which built-in failed: one representative per call form (both
+        # tiers; thorough plays sequences of two commands)
         keep = ("expr:", "fun:PreludePrint/", "fun:PreludeThrow/", "method:StringLen/", "method:ListGet/", "call-other/", "userfun:Fun/")
         jobs = [(l, j) for l, j in jobs if l.startswith(keep)]
     only = os.environ.get("VERIF_C09_ONLY")      # debugging aid: restrict part A to some recipes
@@ -326,7 +329,7 @@ def main():
     C.assumptions += M.NATIVE_NOTES + [
         "start states are produced by the real dispatcher (each sub-expression evaluates to one symbolic value), at top level "
         "(one frame, one bindings block), and stopped by a real error + restore_stack_frame",
-        "pending sub-expression tokens evaluate to one fresh symbolic value each; the replacement expression of `:replace 42` evaluates to Int 42 (quick) / to any value (thorough)",
+        "pending sub-expression tokens evaluate to one fresh symbolic value each; the replacement expression of `:replace 42` evaluates to Int 42",
         "the reader thread, stdin framing, serde_json and the ~25 printing commands of run_command are outside the claim",
         "panic candidates on over-approximated paths count only if the scripted JSON session dies or stops answering",
     ]
